@@ -79,7 +79,7 @@ BUILD = "asan"
 LEVEL = "exploration"
 SIGNAL_IS_VIOLATION = True
 BUDGET = {"quick": 70, "thorough": 1300}
-BATCH_TIMEOUT = {"quick": 300, "thorough": 2400}
+BATCH_TIMEOUT = {"quick": 600, "thorough": 3000}
 RULE = (
     "W1: exhaustive (capacity 0..9, position, method, boundary integer/bytes argument) grid + seeded random method "
     "sequences on a real Buffer vs a pure-Python bounded-buffer model + risky constructors, one per forked process; "
@@ -198,7 +198,7 @@ def plan(tier, seed):
     for x in b:
         key = x["gen"] if x["gen"] != "multi" else x["parts"][-1]["gen"]
         groups.setdefault(key.split("_")[0], []).append(x)
-    cap = 100 if quick else 700
+    cap = 80 if quick else 700
     for x in b:
         for part in (x["parts"] if x["gen"] == "multi" else [x]):
             part["time_cap"] = cap
@@ -1476,6 +1476,7 @@ def gen_w3(batch, res, sb, watch, use_fork):
             return "victim-closed"
 
     sb.max_reforks = 60 + len(auth)
+    sb.group_cap = 2
     sb.run(cases, fn, lambda item: _case_of(batch, item[0]), setup=setup, use_fork=use_fork, group_of=group_of)
 
 
